@@ -273,4 +273,108 @@ theorem fromRecord_ne_panic (F : FloatOps) (ts : Nat) (fin : Bool) (roundLat rou
           exact body_ne_panic F ts _ _ roundLat roundLon hlat1 hlat2 hlon1 hlon2 body s
         · simp [Outcome.bind_err]
 
+
+/-! ### shape and bounds of every record -/
+
+theorem readWords_length (n : Nat) : ∀ (bs : List Nat) ws tail,
+    readWords n bs = .ok (ws, tail) → bs.length = 4 * n + tail.length := by
+  induction n with
+  | zero => intro bs ws tail h; simp only [readWords, Outcome.ok.injEq, Prod.mk.injEq] at h; rw [h.2]; omega
+  | succ n ih =>
+    intro bs ws tail h
+    match bs with
+    | [] | [_] | [_, _] | [_, _, _] => simp [readWords] at h
+    | b0 :: b1 :: b2 :: b3 :: rest =>
+      rcases readWords_cases n rest with h' | ⟨ws', tail', h', _⟩
+      · simp [readWords, h', Outcome.bind_err] at h
+      · simp only [readWords, h', Outcome.bind_ok, Outcome.ok.injEq, Prod.mk.injEq] at h
+        have := ih rest ws' tail' h'
+        simp only [List.length_cons]
+        rw [← h.2]; omega
+
+theorem body_ok_shape (F : FloatOps) (ts icao24 : Nat) (isIcao : Bool) (roundLat roundLon : Int)
+    (hlat1 : -2147483648 ≤ roundLat) (hlat2 : roundLat < 2147483648)
+    (hlon1 : -2147483648 ≤ roundLon) (hlon2 : roundLon < 2147483648)
+    (body : List Nat) (r : Record)
+    (h : (Outcome.bind (decodeBtea ts icao24 body) fun dt =>
+      fields F icao24 isIcao roundLat roundLon dt.1 dt.2) = .ok r) :
+    22 ≤ body.length ∧ ∃ w0 w1 w2 w3 w4 m, 0 ≤ m ∧ m ≤ 3 ∧
+      r = recordOf F icao24 isIcao roundLat roundLon w0 w1 w2 w3 w4 m := by
+  unfold decodeBtea at h
+  rcases readWords_cases 5 body with hr | ⟨ws, tail, hr, hl⟩
+  · simp [hr, Outcome.bind_err] at h
+  · have hlen := readWords_length 5 body ws tail hr
+    obtain ⟨a, b, c, d, e, rfl⟩ := length_five ws hl
+    obtain ⟨a', b', c', d', e', hb⟩ := btea_ok5 _ (makeKey_length ts
+      (((icao24 <<< ADDR_SHL) % 2 ^ 32) &&& ADDR_MASK)) a b c d e
+    obtain ⟨m, hm, h0, h3⟩ := decodeMult_ok c'.toNat
+    simp only [hr, Outcome.bind_ok, hb,
+      fields_eq F icao24 isIcao roundLat roundLon hlat1 hlat2 hlon1 hlon2 a' b' c' d' e' tail m hm h0 h3] at h
+    split at h
+    · cases h
+    · split at h
+      · cases h
+      · simp only [Outcome.ok.injEq] at h
+        exact ⟨by omega, a', b', c', d', e', m, h0, h3, h.symm⟩
+
+theorem fromRecord_ok_shape (F : FloatOps) (ts : Nat) (fin : Bool) (roundLat roundLon : Int)
+    (hlat1 : -2147483648 ≤ roundLat) (hlat2 : roundLat < 2147483648)
+    (hlon1 : -2147483648 ≤ roundLon) (hlon2 : roundLon < 2147483648)
+    (msg : List Nat) (r : Record) (h : fromRecord F ts fin roundLat roundLon msg = .ok r) :
+    26 ≤ msg.length ∧ fin = true ∧
+    ∃ icao24 isIcao w0 w1 w2 w3 w4 m, 0 ≤ m ∧ m ≤ 3 ∧
+      r = recordOf F icao24 isIcao roundLat roundLon w0 w1 w2 w3 w4 m := by
+  unfold fromRecord at h
+  cases fin with
+  | false => simp at h
+  | true =>
+    simp only [Bool.not_true, Bool.false_eq_true, if_false] at h
+    match msg with
+    | [] | [_] | [_, _] | [_, _, _] => simp at h
+    | a0 :: a1 :: a2 :: m :: body =>
+      simp only at h
+      unfold magicValue at h
+      split at h
+      · rw [Outcome.bind_ok] at h
+        obtain ⟨hl, w0, w1, w2, w3, w4, mm, h0, h3, hr⟩ :=
+          body_ok_shape F ts _ _ roundLat roundLon hlat1 hlat2 hlon1 hlon2 body r h
+        exact ⟨by simp only [List.length_cons]; omega, rfl, _, _, w0, w1, w2, w3, w4, mm, h0, h3, hr⟩
+      · split at h
+        · rw [Outcome.bind_ok] at h
+          obtain ⟨hl, w0, w1, w2, w3, w4, mm, h0, h3, hr⟩ :=
+            body_ok_shape F ts _ _ roundLat roundLon hlat1 hlat2 hlon1 hlon2 body r h
+          exact ⟨by simp only [List.length_cons]; omega, rfl, _, _, w0, w1, w2, w3, w4, mm, h0, h3, hr⟩
+        · simp [Outcome.bind_err] at h
+
+theorem mul_i8_range (x : Nat) (m : Int) (h0 : 0 ≤ m) (h3 : m ≤ 3) :
+    -384 ≤ asI8 x * m ∧ asI8 x * m ≤ 381 := by
+  have ⟨h1, h2⟩ := asI8_range x
+  have a : -128 * m ≤ asI8 x * m := Int.mul_le_mul_of_nonneg_right h1 h0
+  have b : asI8 x * m ≤ 127 * m := Int.mul_le_mul_of_nonneg_right h2 h0
+  omega
+
+theorem shl7_add64_range (s : Int) :
+    -2147483648 ≤ wrapS32 (s * 128) + 64 ∧ wrapS32 (s * 128) + 64 < 2147483648 := by
+  unfold wrapS32; omega
+
+theorem fromRecord_ok_bounds (F : FloatOps) (ts : Nat) (fin : Bool) (roundLat roundLon : Int)
+    (hlat1 : -2147483648 ≤ roundLat) (hlat2 : roundLat < 2147483648)
+    (hlon1 : -2147483648 ≤ roundLon) (hlon2 : roundLon < 2147483648)
+    (msg : List Nat) (r : Record) (h : fromRecord F ts fin roundLat roundLon msg = .ok r) :
+    (-2147483648 ≤ r.latE7 ∧ r.latE7 < 2147483648) ∧ (-2147483648 ≤ r.lonE7 ∧ r.lonE7 < 2147483648) ∧
+    r.geoaltitude < 8192 ∧ r.gps < 4096 ∧ r.actype < 16 ∧
+    0 ≤ r.mult ∧ r.mult ≤ 3 ∧ -384 ≤ r.vs10 ∧ r.vs10 ≤ 381 ∧
+    r.ns.length = 4 ∧ r.ew.length = 4 ∧ (∀ x ∈ r.ns ++ r.ew, -384 ≤ x ∧ x ≤ 381) := by
+  obtain ⟨_, _, icao24, isIcao, w0, w1, w2, w3, w4, m, h0, h3, rfl⟩ :=
+    fromRecord_ok_shape F ts fin roundLat roundLon hlat1 hlat2 hlon1 hlon2 msg r h
+  have halt : (w1.toNat >>> ALT_SHR) &&& ALT_MASK ≤ 8191 := Nat.and_le_right
+  have hgps : (w0.toNat >>> GPS_SHR) &&& GPS_MASK ≤ 4095 := Nat.and_le_right
+  have hact : (w0.toNat >>> ACTYPE_SHR) &&& ACTYPE_MASK ≤ 15 := Nat.and_le_right
+  have hvs := mul_i8_range (w0.toNat &&& VS_MASK) m h0 h3
+  refine ⟨shl7_add64_range _, shl7_add64_range _, by simp only [recordOf]; omega,
+    by simp only [recordOf]; omega, by simp only [recordOf]; omega, h0, h3, hvs.1, hvs.2, rfl, rfl, ?_⟩
+  intro x hx
+  simp only [recordOf, List.cons_append, List.nil_append, List.mem_cons, List.not_mem_nil, or_false] at hx
+  rcases hx with rfl | rfl | rfl | rfl | rfl | rfl | rfl | rfl <;> exact mul_i8_range _ m h0 h3
+
 end Rs1090.Proofs.Flarm
